@@ -27,6 +27,8 @@ thread_local! {
 /// when set, the next comparison / hash / format of an `A` payload panics (and clears the flag)
 pub static OBS_PANIC: AtomicBool = AtomicBool::new(false);
 pub struct ObsPanic;
+/// when set, every `Debug` / `Display` of an `A` payload returns an error without writing anything
+pub static OBS_FMT_ERR: AtomicBool = AtomicBool::new(false);
 thread_local! {
     /// run inside every comparison / hash / format of an `A` payload: lets a case look at the counts while a
     /// handle-level comparison, hash or format is in progress
@@ -75,12 +77,18 @@ impl std::hash::Hash for A {
 impl std::fmt::Debug for A {
     fn fmt(&self, f: &mut std::fmt::Formatter) -> std::fmt::Result {
         obs_fault();
+        if OBS_FMT_ERR.load(Ordering::SeqCst) {
+            return Err(std::fmt::Error);
+        }
         write!(f, "A({})", self.val)
     }
 }
 impl std::fmt::Display for A {
     fn fmt(&self, f: &mut std::fmt::Formatter) -> std::fmt::Result {
         obs_fault();
+        if OBS_FMT_ERR.load(Ordering::SeqCst) {
+            return Err(std::fmt::Error);
+        }
         write!(f, "{}", self.val)
     }
 }
